@@ -43,6 +43,8 @@ def run(ctx):
     cases += [dict(je.gen_large_slack_case(ctx.rng, share=0), kind=PID.lower()) for _ in range(ctx.n(10, 120))]
     # (n_jobs+1)^limit >= 2^63: long operations (all basis states) and unit operations (selected states, exact energies)
     cases += [dict(je.gen_huge_limit_case(ctx.rng, share=0, kind=k), kind=PID.lower()) for k in ["long", "long", "unit"] * ctx.n(1, 12)]
+    # >= 3 operations on one machine with windows of different width / offset (full 2^n sweep)
+    cases += [dict(je.gen_shared_machine_case(ctx.rng, share=0), kind=PID.lower()) for _ in range(ctx.n(50, 600))]
     je.assign_objects(ctx.rng, cases)
     for c in cases:
         summ = je.examiner(c)(ctx, batch, c, WANT, ctx.rng)
